@@ -141,6 +141,28 @@ package selector
 //@   loop 0: invariant toks == nil || fresh(toks)
 //@           decreases len(str) - col
 //@
+//@ // ---- what a token means: the segment Parse builds for it, read off the token's text --------------------------------
+//@ // body(t): the token without its optional markers; inner(t): what stands between the brackets
+//@ pure func endsWith1(s string, c int) bool = len(s) >= 1 && s[len(s) - 1] == c
+//@ pure func tokBody(t string) string = trimRightOf(t, "?")
+//@ pure func tokInner(t string) string = substr(tokBody(t), 1, len(tokBody(t)) - 1)
+//@ pure func bracketed(t string) bool = tokBody(t) != "[]" && hasPrefix(tokBody(t), "[") && endsWith1(tokBody(t), ']')
+//@ pure func isIndexTok(t string) bool = bracketed(t) && reMatches(indexRegex, tokInner(t))
+//@ pure func isQuotedTok(t string) bool = bracketed(t) && !reMatches(indexRegex, tokInner(t)) && len(tokInner(t)) >= 2 && hasPrefix(tokInner(t), "\"") && endsWith1(tokInner(t), '"')
+//@ pure func isSliceTok(t string) bool = bracketed(t) && !reMatches(indexRegex, tokInner(t)) && !(len(tokInner(t)) >= 2 && hasPrefix(tokInner(t), "\"") && endsWith1(tokInner(t), '"')) && reMatches(sliceRegex, tokInner(t))
+//@ pure func isDotFieldTok(t string) bool = tokBody(t) != "." && tokBody(t) != "[]" && !(hasPrefix(tokBody(t), "[") && endsWith1(tokBody(t), ']')) && reMatches(fieldRegex, tokBody(t))
+//@ // the segment carries exactly what the token says: the index as a number, the quoted or dotted name, the two slice bounds
+//@ // (an omitted bound is the extreme int), the iterator flag; and nothing else
+//@ pure func segMeans(s segment, t string) bool =
+//@     (isIndexTok(t) ==> s.index == atoiVal(tokInner(t)) && s.field == "" && len(s.slice) == 0 && !s.iterator && !s.identity)
+//@  && (isQuotedTok(t) ==> s.field == substr(tokInner(t), 1, len(tokInner(t)) - 1) && len(s.slice) == 0 && !s.iterator && !s.identity)
+//@  && (isDotFieldTok(t) ==> s.field == substr(tokBody(t), 1, len(tokBody(t))) && len(s.slice) == 0 && !s.iterator && !s.identity)
+//@  && (tokBody(t) == "[]" ==> s.iterator && s.field == "" && len(s.slice) == 0 && !s.identity)
+//@  && (tokBody(t) == "." ==> s.identity && s.field == "" && len(s.slice) == 0 && !s.iterator)
+//@  && (isSliceTok(t) ==> len(s.slice) == 2 && s.field == "" && !s.iterator && !s.identity
+//@        && s.slice[0] == (splitPiece(tokInner(t), ":", 0) == "" ? -9223372036854775808 : parseIntVal(splitPiece(tokInner(t), ":", 0), 10, 0))
+//@        && s.slice[1] == (splitPiece(tokInner(t), ":", 1) == "" ? 9223372036854775807 : parseIntVal(splitPiece(tokInner(t), ":", 1), 10, 0)))
+//@
 //@ // Parse: one segment per token, recording the token's text (an optional marker on a mid-selector identity is normalised
 //@ // away); slice segments own their two bounds (no two segments share them); a quoted field segment is a field segment
 //@ func Parse
@@ -148,6 +170,7 @@ package selector
 //@   given reSource(fieldRegex) == `^\.[a-zA-Z_\p{L}][a-zA-Z0-9$_\p{L}\-]*$` ==> forall s string :: {reMatches(fieldRegex, s)} reMatches(fieldRegex, s) ==> len(s) >= 2 && s[0] == '.' && s[1] != '"'
 //@   given reSource(sliceRegex) == `^((\-?\d+:\-?\d*)|(\-?\d*:\-?\d+))$` ==> forall s string :: {reMatches(sliceRegex, s)} reMatches(sliceRegex, s) ==> strings_contains(s, ":") && len(s) >= 1 && s[0] != '"'
 //@   given reSource(indexRegex) == `^-?\d+$` ==> forall s string :: {reMatches(indexRegex, s)} reMatches(indexRegex, s) ==> len(s) >= 1 && s[0] != '"'
+//@   use trim_noop
 //@   ensures [C09] total: true
 //@   ensures [C14] nonempty: result1 == nil ==> len(result0) > 0
 //@   ensures [C14,C12] wf: result1 == nil ==> (forall i int :: 0 <= i && i < len(result0) ==> wfSeg(result0[i]))
@@ -155,12 +178,15 @@ package selector
 //@   ensures [C14] rejected: result1 != nil ==> result0 == nil
 //@   // one segment per token, carrying the token's text (or "." for an identity token, whose optional markers are dropped)
 //@   ensures [C14] texts by tokenize.names: result1 == nil && str != "." && str != ".?" ==> len(result0) == tokCount(str) && (forall i int :: {result0[i]} 0 <= i && i < len(result0) ==> (result0[i].str == tokAt(str, i) || (result0[i].identity && result0[i].str == ".")))
+//@   // every segment means what its token says (index value, field name, slice bounds, iterator / identity flags)
+//@   ensures [C14,C12] means by tokenize.names: result1 == nil && str != "." && str != ".?" ==> (forall i int :: {result0[i]} 0 <= i && i < len(result0) ==> segMeans(result0[i], tokAt(str, i)))
 //@   // printing reproduces the text: when every segment carries its token's text, the recorded texts joined are the input
 //@   ensures [C14] roundtrip by seg_tokens, concat_ext, tokenize.names, tokenize.adjacent: result1 == nil && (str == "." || str == ".?" || (forall i int :: {result0[i]} 0 <= i && i < len(result0) ==> result0[i].str == tokAt(str, i))) ==> segText(elems(result0), off(result0), len(result0)) == str
 //@   ensures [C14] quoted: result1 == nil ==> (forall i int :: 0 <= i && i < len(result0) && len(result0[i].str) >= 2 && result0[i].str[1] == '"' ==> segField(result0[i]))
 //@   loop 0: invariant 0 <= k && k <= len(ranged) && len(sel) == k && (sel == nil || fresh(sel))
 //@   loop 0: invariant texts: forall i int :: 0 <= i && i < k ==> (sel[i].str == ranged[i] || (sel[i].identity && sel[i].str == "."))
 //@   loop 0: invariant wf: forall i int :: 0 <= i && i < k ==> wfSeg(sel[i])
+//@   loop 0: invariant means: forall i int :: {sel[i]} 0 <= i && i < k ==> segMeans(sel[i], ranged[i])
 //@   loop 0: invariant owned: forall i int :: 0 <= i && i < k && len(sel[i].slice) == 2 ==> allocated(sel[i].slice)
 //@   loop 0: invariant ownbounds: forall i int, j int :: 0 <= i && i < j && j < k && len(sel[i].slice) == 2 && len(sel[j].slice) == 2 ==> !samebase(sel[i].slice, sel[j].slice)
 //@   loop 0: invariant optflag: forall i int :: 0 <= i && i < k && !sel[i].identity ==> sel[i].optional == (len(ranged[i]) > 0 && ranged[i][len(ranged[i]) - 1] == '?')
